@@ -32,7 +32,7 @@ CHECKS["C13"] = dict(
          "decides 'identical for any number of threads'; (R2) the direction codes stored by neighbormax and the offsets "
          "o[] used to follow them denote the same neighbour; (R3) the work buffer is completely overwritten before it is "
          "read and labels are only copied from finished pixels, i.e. no dependence on previous buffer content; (R4) "
-         "sparse variants single threaded.",
+         "sparse variants single threaded. (R5) no difference (column - 1, row - 1) is stored into an unsigned variable in the labelling kernels: neighbour windows are computed in int.",
     note=TRUST + "Assumes image shape >= 3x3 and untorn byte/word stores. Not decided: that following the largest "
          "neighbour is steepest ascent on every image, dense/sparse partition equality.")
 CHECKS["C19"] = dict(
@@ -43,7 +43,8 @@ CHECKS["C19"] = dict(
          "inverses in both directions, that the in-beam dty makes lab y vanish, and that the degree/sincos and alias "
          "forms agree (19 obligations). Structural necessary conditions for the reconstruction clauses: numba clone of "
          "the in-beam distance equals the geometry function, iradon workers share no written state and are combined in "
-         "order, shift/pad reach run_iradon in the right slots.",
+         "order, shift/pad reach run_iradon in the right slots, and (R5) sino_shift_and_pad's shift is the signed identity "
+         "ny/2 - (y0 - ymin)/ystep, consistent with dty_to_dtyi, with pad = ceil(2|shift|) + 1.",
     note=TRUST + "Floating-point rounding not modelled; ystep != 0. Not decided: 1.5 pixel landing, linearity, "
          "iradon's internal half-pixel conventions.")
 
@@ -57,7 +58,7 @@ CHECKS["C06"] = dict(
          "references compute the same polynomial sum_j (h_j - rnd(h_j))^2 with h = ubi.g and compare it strictly with "
          "tol^2; (R4) score_and_refine, refine_assigned, indexing.refine and indexer.refine produce the same expression "
          "inv(R inv(H)) with R = sum g h^T, H = sum h h^T (uninterpreted 3x3 inverse), count and mean as sum/n; (R5) "
-         "preconditions of the magic-number rounding. Equality is of real-valued expressions for a generic peak.",
+         "preconditions of the magic-number rounding. Equality is of real-valued expressions for a generic peak. (R6) every OpenMP directive of closest.c keeps counters and sums as reductions and temporaries private (E2), so the returned counts do not depend on the thread count.",
     note=TRUST + "rnd() models both the magic-add rounding and floor(x+0.5) (they differ at exact halves). Not decided: "
          "floating-point agreement with numpy.linalg, conditioning, |h| ~ 1e3 accuracy.")
 CHECKS["C17"] = dict(
@@ -83,7 +84,7 @@ CHECKS["C18"] = dict(
          "(two-field lines, type coercion on every path), grain text (9x >=9 digits UBI row-major, >=6 digits "
          "translation, every written tag restored through the inverse conversion, state reset), grain HDF5 (same "
          "attribute tables, inverse conversions, integer-sorted groups), ubi files, sparse frames (attrs/datasets on "
-         "both sides; h5py .attrs never rebound). Necessary conditions of the round trips.",
+         "both sides; h5py .attrs never rebound). Necessary conditions of the round trips. (R2 also) every path through the HDF writers' title loop stores the column: create_dataset(.., data=..) or a whole-dataset assignment.",
     note=TRUST + "Not decided: digit-level precision of particular values, negative zero, overwriting an HDF5 group that "
          "holds a different set of titles, h5py/numpy exactness (assumed).")
 
@@ -97,7 +98,7 @@ CHECKS["C16"] = dict(
          "for the generic conforming cell under the left application find_uniq_u uses (this is what exposed the trigonal "
          "generator). Structural: the reduction enumerates the whole orbit of its input with a strict maximum and falls "
          "back to the input, so with a closed group it returns the same maximiser for every orbit member; the registry "
-         "and the callers are consistent.",
+         "and the callers are consistent. (R5, shared with C04.R1) users of the reduction install the canonical matrix through grain.set_ubi; no direct write of <grain>.ubi leaves stale U/UB/B/Rod caches.",
     note=TRUST + "Assumes group.makegroup computes the closure (float allclose on integer matrices is exact). Not decided: "
          "ties of the trace / hkl score, numerical consequences for indexing.")
 
@@ -170,7 +171,9 @@ CHECKS["C02"] = dict(
          "numba copy on every branch, |compute_k_vectors|^2 = (2 sin(theta)/lambda)^2, |compute_g_vectors|^2 likewise; in "
          "C gv.gv = k.k, out[2]^2 = |g|^2 and k.k = (2/lambda^2)(1 - d0/|d|) - reference-independent laws, so an error made "
          "consistently in every implementation is still caught. Structural: returned angles are multiplied by the "
-         "validity mask, callers bind it, and the mask bounds the arcsin argument on both sides.",
+         "validity mask, callers bind it, and the mask bounds the arcsin argument on both sides. (R6, shared with C01) the "
+         "forward maps that the inversion laws invert are one function: compute_geometry's g == compute_gv's g, and both "
+         "equal the Python chain stage by stage (same omega.chi.wedge composition order, same grain-origin shift).",
     note=TRUST + "Not decided: the two-solution inversion g -> angles -> g, the detector projection round trip, rigid "
          "rotation about the axis under a change of omega (needs angle-addition).")
 
@@ -184,7 +187,7 @@ CHECKS["C15"] = dict(
          "there; (R2) the driver stops only after a sweep returned 0, from labels = arange; (R3) renumbering counts roots "
          "sequentially and its parallel loop writes only its own cell under the 'tagged' guard while reading only root "
          "cells; (R4) merged-peak sums/means: row table of numbapkmerge <-> pk2dmerge dictionary, scale branch = unscaled "
-         "branch x scale; (R5) no scatter-add under prange (the merge kernel stays sequential).",
+         "branch x scale; (R5) no scatter-add under prange (the merge kernel stays sequential). R1 also decides that a sweep visits every edge once: prange(len(i)), or a blocked sweep whose block size is the ceiling of len(i)/nblk.",
     note=TRUST + "Assumes untorn aligned 8-byte stores and termination. Not decided: equality of the sums with an independent "
          "oracle, the scipy route.")
 
@@ -198,7 +201,7 @@ CHECKS["C11"] = dict(
          "assigned back to the set it grew, initialise/compress/free pairing, compressed table applied, dset_link points "
          "higher ids at lower, the running count survives table growth (last store covering the count cell); (R4) every "
          "label cell is written on every path (affine coverage + first pixel both branches); (R5) relabel loop race free. "
-         "Necessary conditions; the union-find correctness argument itself is not mechanised.",
+         "Necessary conditions; the union-find correctness argument itself is not mechanised. R1 also requires every neighbour link to be unconditional on the other neighbours' labels (no 'W is labelled, skip N' shortcut).",
     note=TRUST + "Assumes ns, nf >= 2 and sorted sparse input. Not decided: that these unions yield exactly the connected "
          "components, the returned count, equality of the partitions of the three variants.")
 
@@ -213,7 +216,7 @@ CHECKS["C12"] = dict(
          "integer typing; (R3) on every path of mergelast the images are swapped once and the previous-frame state is "
          "taken from the current frame, bloboverlaps is called only with two non-empty frames and in (previous, current) "
          "order, closed peaks are finished then written, finalise flushes; (R4) merge() is used only in the three "
-         "disjoint link cases, surviving rows are moved by plain copy, labels relabelled through the compaction table.",
+         "disjoint link cases, surviving rows are moved by plain copy, labels relabelled through the compaction table. (R5, shared with C11.R1) the dense labeller links every already-visited neighbour in every border region, the premise of one 2D blob per component.",
     note=TRUST + "Not decided: one-to-one correspondence with 3-D connected components, centroid/variance arithmetic, "
          "spatial correction.")
 
@@ -244,7 +247,7 @@ CHECKS["C08"] = dict(
          "finally; (R4) crystal triad of BTmat and lab triad of quickorient are the same symbolic construction, first axis "
          "along v1, third axis perpendicular to v2, det^2 == 1, product order BT.(u1;u2;u3), call-site wiring: hence "
          "det(UBI) = det(B^-1) and UBI.g1 || h1; (R5) uniqueness is (#free among getind(UBI)) / (#getind(UBI)) and getind "
-         "selects with hkl_tol and returns the label it passed to the kernel.",
+         "selects with hkl_tol and returns the label it passed to the kernel. (R6) the appended matrix is not modified in place (score_and_refine & co., per the .pyf intent of their first argument, also through plain aliases) after the count that passed the gate was taken - this rule found the refine-after-gate defect, repaired in /repo; (R7, shared with C06.R3/R4) the gate's count, the claimed peaks and the refinement use one tolerance predicate sum_j (h_j - rnd h_j)^2 < tol^2.",
     note=TRUST + "Thin partial claim. Not decided: that the refined matrix still indexes > minpks peaks after "
          "score_and_refine, cell parameters within tolerance, sign of det(B), de-duplication up to lattice symmetry, and the "
          "whole completeness half (every grain found exactly once on ideal data) - outcomes of a numerical search.")
@@ -263,7 +266,7 @@ CHECKS["C09"] = dict(
          "recomputing this grain's g-vectors, h,k,l = floor(hkl_real+0.5); (R5) compute_gv applies omegasign and passes "
          "wavelength, wedge, chi everywhere and stores the last gv on every path; (R6) refine works on a copy with "
          "(mat, self.gv, self.tolerance) and returns it; gof installs the trial parameters, refines from the matrix read in, "
-         "weights by npks, guards the division.",
+         "weights by npks, guards the division. (R7, shared with C01.R2/R4) the C kernel route of assignlabels and the Python route of compute_gv are one function of (xyz, omega*sign, wedge, chi, t), stage by stage.",
     note=TRUST + "Thin partial claim. Not decided: convergence of the simplex, recovery of UBI / translation to tolerance, "
          "peak ownership on real data - numerical outcomes. fit() (global parameters) is exempt from R1 by design of the code. "
          "Observation outside the property: refinepositions stores the last trial point of the simplex, not its best vertex "
@@ -285,7 +288,7 @@ CHECKS["C20"] = dict(
          ".pyf extents under the property's own domain (images >= 2x2, counts >= 0), is checked at its call sites against the "
          "callee's requirement summary, or sits at one of 139 confirmed PRECONDITION sites (sortedness of (i,j), labels <= "
          "npk, permutation tables, disjoint-set invariants, assumed-size .pyf arrays), each with a reason; an unbounded "
-         "input-dependent index, an insufficient guard, or an affine index with an out-of-range witness is a violation.",
+         "input-dependent index, an insufficient guard, or an affine index with an out-of-range witness is a violation. (R7) no difference is stored into a variable of unsigned integer type (value-changing implicit conversion).",
     note=TRUST + "PRECONDITION sites (161 accesses) and the disjoint-set arrays are trusted, so an off-by-one inside a scan that "
          "relies on sortedness is invisible to R6 (C11-C14 cover the scan guards). Integer overflow of index arithmetic, "
          "alignment, aliasing between arguments and the f2py-generated wrapper code itself are not analysed. Found and fixed: "
